@@ -579,6 +579,9 @@ func init() {
 	reg(&propDef{id: "C17", level: "exploration", crashIsViol: true,
 		batches: []batch{{name: "tunnel", quick: 2400, thorough: 90000}},
 		rule:    "each evaluation is one simulated transfer with the tunnel offered (real listener code on an in-memory network with per-host ports, real client connector path, optionally one relay with its own tunnel hop) while 0-3 attacker tasks connect to the server's or the relay's port at tape-chosen times with: unrelated text, the greeting for another id, a truncated greeting, the greeting plus one byte, the greeting split across two writes, nothing, a flood of protocol-looking lines, or the right greeting after the genuine connection is in place - and keep writing fail lines afterwards; the client's connector succeeds, refuses, returns late (1.1-3.1 s), returns a dead connection, or the server cannot listen; once the tunnel carries traffic, fail lines are injected in-band in both directions; oracles: the transfer succeeds with identical files (C01 oracle) in every case, a connection that did not present the greeting receives nothing and is closed, a second correct greeting gets no transfer traffic, no more connections carry protocol traffic than there are tunnel hops; non-trivial = oracles evaluated; distinct = distinct (configuration + connector outcome + attacker kinds, schedule-trace hash, tape hash)"})
+	reg(&propDef{id: "C19", level: "exploration", crashIsViol: true,
+		batches: []batch{{name: "zmodem", quick: 2000, thorough: 80000}},
+		rule:    "each evaluation is one real filter with zmodem enabled, a scripted remote rz/sz (start header within one read, optionally accompanied by a cancel sequence or 'cannot open'; then finishes, cancels early or late, keeps sending, or goes quiet) and a scripted local helper behind the os/exec substitute (normal, exits non-zero, exits at once, never writes, writes late, missing from PATH), upload with and without files to send, download, optional Ctrl-C early or late; all timers (100 ms start delay, 500 ms quiet timer, 20 s timeouts) run on the fake clock; oracles: matching helper and directory, started at most once, traffic bridged both ways in clean sessions, server told to cancel whenever the session did not complete, a silent helper cancelled or killed, vetoed headers start nothing and are shown, and after 26 s typed input reaches the server and a printed probe reaches the terminal; non-trivial = all of that evaluated; distinct = distinct (case class, schedule-trace hash, tape hash)"})
 	reg(&propDef{id: "C18", level: "exploration", crashIsViol: false,
 		batches: []batch{{name: "pauses", quick: 2400, thorough: 90000}},
 		rule:    "each evaluation is one simulated transfer (protocol 3 or 4, T in {2,5,20} s) paused 1-3 times at tape-chosen messages by Ctrl-C and continued through the real prompt after a think time of 0.02T..3T; non-trivial = at least one pause/continue cycle completed and the outcome rules (short pause => success with identical files; long pause => success or error, never a hang or a wrong file) and the no-data-while-paused monitor were evaluated; distinct = distinct (configuration + pause band + cycles, schedule-trace hash, tape hash)"})
